@@ -149,3 +149,32 @@ def c04(tier):
             js.append(j)
     js += with_witness(J("children_r5_n1", "C04_tree.c", ["-DCHILDREN", "-DRES=5", "-DN=1"], unwind=52, us={"iterStepChild.0": 4, "cellToChildren.0": 9, "_ipow.0": 6}, est=30))[1:]
     return js
+
+
+# ------------------------------------------------------------------------------------------- C13
+@prop("C13",
+      functions=["cellToChildPos", "childPosToCell", "validateChildPos", "cellToChildrenSize", "cellToParent", "_ipow", "isPentagon", "iterStepChild"],
+      bounds={"quick": "per (parentRes, childRes) pair with childRes-parentRes <= 2 (45 pairs): all valid parents x all int64 positions (FWD), all valid children (BWD, ORDER); error codes: all int resolutions",
+              "thorough": "all 136 (parentRes, childRes) pairs; pairs whose query exceeds the cap are listed as undecided"},
+      outside="pairs reported undecided (deep 7^k division chains)",
+      assumptions=["iterator invariant of C04 for the ORDER clause"],
+      stubs=[])
+def c13(tier):
+    js = []
+    for p in ALLRES:
+        for c in range(p, 16):
+            dd = c - p
+            t = "quick" if dd <= 2 else "thorough"
+            us = {"_ipow.0": 6, "childPosToCell.0": dd + 2, "childPosToCell.1": dd + 2, "cellToChildPos.0": dd + 2, "cellToChildPos.1": dd + 2,
+                  "iterStepChild.0": dd + 3, "cellToParent.0": c + 2, "harness.0": 17, "spec_parent.0": 17, "spec_size.0": 17, "firstNZpos.0": 17, "spec_valid_cell.0": 17, "spec_is_pentagon.0": 17}
+            for mode in ("FWD", "BWD", "ORDER"):
+                j = J("%s_%d_%d" % (mode.lower(), p, c), "C13_childpos.c", ["-D" + mode, "-DPRES=%d" % p, "-DCRES=%d" % c], unwind=17, us=us,
+                      est=10 + 40 * dd, tier=t, timeout=3000 if tier == "thorough" else 900, sat="cadical",
+                      bound="parentRes=%d childRes=%d" % (p, c), core=(dd <= 3))
+                if (p, c) in ((0, 1), (5, 7), (14, 15)):
+                    js += with_witness(j, tier=t)
+                else:
+                    js.append(j)
+    for p in (0, 3, 9, 15):
+        js += with_witness(J("err_%d" % p, "C13_childpos.c", ["-DERR", "-DPRES=%d" % p], unwind=17, us={"_ipow.0": 6}, est=20, bound="all int resolutions and positions, parents of res %d" % p))
+    return js
